@@ -102,3 +102,79 @@ Definition via_options (s : step) : bool :=
   | SPathKey PKPackage _ | SProof PKPackage _ | SEntry PKPackage _ | SType PKPackage _ => false
   | _ => true
   end.
+
+(* ------------------------------------------------------------------ *)
+(* a caller-provided tree shared by several merklizers                  *)
+(* ------------------------------------------------------------------ *)
+(* With WithMerkleTree(mt) the Merklizer holds a REFERENCE to a tree that the caller
+   (and other merklizers) keep mutating.  The tree is therefore part of the script
+   state, not of the merklizer value: `with_tree m t` is merklizer m as it reads
+   the shared tree whose current content is t (Root(), Proof read it live). *)
+Definition with_tree (m : mz) (t : tree) : mz := mkmz (mz_entries m) t (mz_hasher m).
+
+Definition res_unit {A} (r : res A) : res unit :=
+  match r with Ok _ => Ok tt | Err x => Err x | Panic w => Panic w | Diverge => Diverge end.
+
+(* AddEntriesToMerkleTree on a shared tree: a failing run keeps the leaves already added *)
+Fixpoint merklize_entries_st (T : tparams) (Hd : hasher) (t : tree) (es : list rdf_entry)
+  : tree * res unit :=
+  match es with
+  | [] => (t, Ok tt)
+  | e :: rest =>
+      match (kv <- entry_kv Hd e ;; t_add T t (fst kv) (snd kv)) with
+      | Ok t' => merklize_entries_st T Hd t' rest
+      | r => (t, res_unit r)
+      end
+  end.
+
+Record shared := mksh { sh_tree : tree; sh_mzs : list mz }.
+
+Inductive gstep :=
+| GMerklize (cfg : option hasher) (es : list entry)
+    (* MerklizeJSONLD(doc, WithMerkleTree(shared), WithHasher(cfg)?) where es is what
+       EntriesFromRDFWithHasher yields for doc; on success the merklizer gets the next number *)
+| GAdd (k v : Z)                 (* somebody calls tree.Add(k, v) on the shared tree *)
+| GOn (i : nat) (s : step).      (* a caller step on merklizer number i *)
+
+Inductive gobs :=
+| GOMerk (r : res unit)
+| GOAdd (r : res unit)
+| GOStep (o : option obs).       (* None: there is no merklizer number i *)
+
+Definition gstep_run (T : tparams) (Hd : hasher) (st : shared) (g : gstep) : shared * gobs :=
+  match g with
+  | GMerklize cfg es =>
+      let h := hasher_or Hd cfg in
+      let es' := map (wrap_entry h (Some h)) es in
+      match index_entries Hd es' [] with
+      | Ok mp =>
+          let '(t', r) := merklize_entries_st T Hd (sh_tree st) es' in
+          match r with
+          | Ok _ => (mksh t' (sh_mzs st ++ [mkmz mp t' h]), GOMerk (Ok tt))
+          | _ => (mksh t' (sh_mzs st), GOMerk r)
+          end
+      | r => (st, GOMerk (res_unit r))
+      end
+  | GAdd k v =>
+      match t_add T (sh_tree st) k v with
+      | Ok t' => (mksh t' (sh_mzs st), GOAdd (Ok tt))
+      | r => (st, GOAdd (res_unit r))
+      end
+  | GOn i s =>
+      match nth_error (sh_mzs st) i with
+      | Some m => (st, GOStep (Some (run_step T Hd (with_tree m (sh_tree st)) s)))
+      | None => (st, GOStep None)
+      end
+  end.
+
+Fixpoint grun (T : tparams) (D : nat -> hasher) (i : nat) (st : shared) (gs : list gstep)
+  : shared * list gobs :=
+  match gs with
+  | [] => (st, [])
+  | g :: rest =>
+      let '(st1, o) := gstep_run T (D i) st g in
+      let '(st2, os) := grun T D (S i) st1 rest in
+      (st2, o :: os)
+  end.
+
+Definition shared_init : shared := mksh E [].
